@@ -30,7 +30,7 @@ pub static DEF: CheckDef = CheckDef {
 };
 
 fn families(t: Tier) -> Vec<(&'static str, u64)> {
-    vec![("training", t.n(2_500, 40_000))]
+    vec![("training", t.n(2_500, 250_000))]
 }
 fn floors(_t: Tier) -> Vec<(&'static str, u64)> {
     vec![("evaluations", 400), ("iterations_checked", 1_500), ("parameter_gradients_compared", 4_000), ("conv_histories", 60), ("batched_histories", 150)]
